@@ -9,12 +9,26 @@ set_option linter.unusedSimpArgs false
 namespace Gossamer.C06
 open Gossamer Gossamer.Trie
 
-/-- idealised hash: 32-byte digests, injective, and the relation "the digest of `y` occurs inside
-    `x`" has no cycles (`rk` is a rank that it decreases) -/
-structure HashOK (H : Bytes → Bytes) : Prop where
+/-- what the theorems need of the hash on the strings of `Dom` (the node encodings and hashed values
+    that occur along a history, and the empty node `[0]`): 32-byte digests, no collision among
+    them, and no cycle of hash references among them (the relation "the digest of `y` occurs inside
+    `x`" is decreased by a rank `rk`) -/
+structure HashOK (H : Bytes → Bytes) (Dom : Bytes → Prop) : Prop where
   len : ∀ x, (H x).length = 32
-  inj : ∀ a b, H a = H b → a = b
-  rank : ∃ rk : Bytes → Nat, ∀ x y, H y <:+: x → rk y < rk x
+  inj : InjOn H Dom
+  rank : ∃ rk : Bytes → Nat, ∀ x y, Dom x → Dom y → H y <:+: x → rk y < rk x
+  zero : Dom [0]
+
+theorem nodeOf_trans {a b : Trie} (hab : NodeOf a b) : ∀ {c : Trie}, NodeOf b c → NodeOf a c := by
+  intro c
+  induction c with
+  | nil => intro h; exact h.elim
+  | leaf pk v => intro h; simp only [NodeOf] at h; subst h; exact hab
+  | branch pk v cs ih =>
+    intro h
+    rcases h with h | ⟨i, h⟩
+    · subst h; exact hab
+    · exact Or.inr ⟨i, ih i h⟩
 
 /-! ### packed prefixes -/
 
@@ -185,7 +199,8 @@ theorem rowKey_split {H : Bytes → Bytes} (hlen : ∀ x, (H x).length = 32) {p 
   exact List.append_inj' h (by simp [hlen])
 
 /-- a value is never the encoding of the node that holds it, nor of that node's parent slot -/
-theorem value_ne_enc {ver : Ver} {H : Bytes → Bytes} (hH : HashOK H) {n : Trie} {v : Bytes}
+theorem value_ne_enc {ver : Ver} {H : Bytes → Bytes} {Dom : Bytes → Prop} (hH : HashOK H Dom)
+    {n : Trie} {v : Bytes} (hdv : Dom v) (hdn : ∀ m, NodeOf m n → Dom (encodeNode ver H m))
     (hm : mustBeHashed ver v = true)
     (hhold : (n = leaf [] v ∨ ∃ cs, n = branch [] (some v) cs) ∨
       (n = leaf [0] v ∨ (∃ cs, n = branch [0] (some v) cs) ∨
@@ -199,17 +214,18 @@ theorem value_ne_enc {ver : Ver} {H : Bytes → Bytes} (hH : HashOK H) {n : Trie
     rcases hmm with ⟨pk, rfl⟩ | ⟨pk, cs, rfl⟩
     · exact value_infix_leaf ver H pk v hm
     · exact value_infix_branch ver H pk v cs hm
-  have hself : ∀ m : Trie, encodeNode ver H m = v →
+  have hself : ∀ m : Trie, Dom (encodeNode ver H m) → encodeNode ver H m = v →
       ((∃ pk, m = leaf pk v) ∨ (∃ pk cs, m = branch pk (some v) cs)) → False := by
-    intro m hmv hmm
-    have := hrk _ _ (hdirect m hmm)
+    intro m hdm hmv hmm
+    have := hrk _ _ hdm hdv (hdirect m hmm)
     rw [hmv] at this
     exact Nat.lt_irrefl _ this
+  have hdself := hdn n
   rcases hhold with (rfl | ⟨cs, rfl⟩) | (rfl | ⟨cs, rfl⟩ | ⟨bv, cs, rfl, hc⟩)
-  · exact hself _ he (Or.inl ⟨_, rfl⟩)
-  · exact hself _ he (Or.inr ⟨_, _, rfl⟩)
-  · exact hself _ he (Or.inl ⟨_, rfl⟩)
-  · exact hself _ he (Or.inr ⟨_, _, rfl⟩)
+  · exact hself _ (hdself (nodeOf_self (by simp))) he (Or.inl ⟨_, rfl⟩)
+  · exact hself _ (hdself (nodeOf_self (by simp))) he (Or.inr ⟨_, _, rfl⟩)
+  · exact hself _ (hdself (nodeOf_self (by simp))) he (Or.inl ⟨_, rfl⟩)
+  · exact hself _ (hdself (nodeOf_self (by simp))) he (Or.inr ⟨_, _, rfl⟩)
   · -- the value sits in child 0, whose hash is inside the encoding of `n`
     have hc' : (∃ pk, cs 0 = leaf pk v) ∨ (∃ pk ccs, cs 0 = branch pk (some v) ccs) := by
       rcases holder_nil hc with h | ⟨ccs, h⟩
@@ -224,12 +240,15 @@ theorem value_ne_enc {ver : Ver} {H : Bytes → Bytes} (hH : HashOK H) {n : Trie
     have hnn : (cs 0).isNil = false := by
       rcases hc' with ⟨pk, h⟩ | ⟨pk, ccs, h⟩ <;> rw [h] <;> rfl
     have h2 := kid_infix ver H [] bv cs 0 hnn hlong
-    have r1 := hrk _ _ h1
-    have r2 := hrk _ _ h2
+    have hne0 : cs 0 ≠ nil := fun x => by rw [x] at hnn; simp [Trie.isNil] at hnn
+    have hdc : Dom (encodeNode ver H (cs 0)) := hdn _ (nodeOf_child 0 (nodeOf_self hne0))
+    have r1 := hrk _ _ hdc hdv h1
+    have r2 := hrk _ _ (hdself (nodeOf_self (by simp))) hdc h2
     rw [he] at r2
     omega
 
-theorem rows_inj {ver : Ver} {H : Bytes → Bytes} (hH : HashOK H) (T0 : Trie)
+theorem rows_inj {ver : Ver} {H : Bytes → Bytes} {Dom : Bytes → Prop} (hH : HashOK H Dom) (T0 : Trie)
+    (hcov : Covers ver H Dom T0)
     (heven : ∀ k v, lookup T0 k = some v → k.length % 2 = 0) (pos1 pos2 : Pos)
     (h1 : ValidPos ver H T0 pos1) (h2 : ValidPos ver H T0 pos2)
     (heq : rowOf ver H T0 pos1 = rowOf ver H T0 pos2) : pos1 = pos2 := by
@@ -241,8 +260,12 @@ theorem rows_inj {ver : Ver} {H : Bytes → Bytes} (hH : HashOK H) (T0 : Trie)
     intro q hq hq0 hl he
     obtain ⟨v, cs, hb, hc⟩ := child_zero hq hq0
     rw [hb] at he
+    have hd1 : Dom (encodeNode ver H (branch [] v cs)) := by
+      rw [← hb]; exact hcov.1 _ (nodeOf_subAt T0 q hq)
+    have hd2 : Dom (encodeNode ver H (cs 0)) := by
+      rw [hc]; exact hcov.1 _ (nodeOf_subAt T0 _ hq0)
     rw [← hc] at he hl hq0
-    have := hrk _ _ (kid_infix ver H [] v cs 0 (isNil_false_of_ne hq0) hl)
+    have := hrk _ _ hd1 hd2 (kid_infix ver H [] v cs 0 (isNil_false_of_ne hq0) hl)
     rw [he] at this
     exact Nat.lt_irrefl _ this
   -- a hashed value is never the encoding of a node at the same packed prefix
@@ -254,17 +277,21 @@ theorem rows_inj {ver : Ver} {H : Bytes → Bytes} (hH : HashOK H) (T0 : Trie)
     rcases prefixBytes_eq p k hpre with rfl | ⟨hodd, _⟩ | ⟨hodd, rfl⟩
     · have := lookup_subAt T0 p [] hp
       rw [List.append_nil, hk] at this
-      exact value_ne_enc hH hm (Or.inl (holder_nil this.symm))
+      exact value_ne_enc hH (hcov.2 _ _ hk hm)
+        (fun m hmm => hcov.1 m (nodeOf_trans hmm (nodeOf_subAt T0 p hp))) hm
+        (Or.inl (holder_nil this.symm))
     · omega
     · have := lookup_subAt T0 p [0] hp
       rw [hk] at this
-      exact value_ne_enc hH hm (Or.inr (holder_zero this.symm))
+      exact value_ne_enc hH (hcov.2 _ _ hk hm)
+        (fun m hmm => hcov.1 m (nodeOf_trans hmm (nodeOf_subAt T0 p hp))) hm
+        (Or.inr (holder_zero this.symm))
   cases pos1 with
   | node p =>
     cases pos2 with
     | node q =>
       obtain ⟨hpre, hh⟩ := rowKey_split hH.len heq
-      have henc := hH.inj _ _ hh
+      have henc := hH.inj _ _ (hcov.1 _ (nodeOf_subAt T0 p h1.1)) (hcov.1 _ (nodeOf_subAt T0 q h2.1)) hh
       rcases prefixBytes_eq p q hpre with rfl | ⟨_, rfl⟩ | ⟨_, rfl⟩
       · rfl
       · exact absurd henc.symm (hnn q h2.1 h1.1 (h1.2 (by simp)))
@@ -273,14 +300,16 @@ theorem rows_inj {ver : Ver} {H : Bytes → Bytes} (hH : HashOK H) (T0 : Trie)
       obtain ⟨v, hk, hm⟩ := h2
       simp only [rowOf, hk, Option.getD_some] at heq
       obtain ⟨hpre, hh⟩ := rowKey_split hH.len heq
-      exact absurd (hH.inj _ _ hh) (hnv p k v h1.1 hk hm hpre)
+      exact absurd (hH.inj _ _ (hcov.1 _ (nodeOf_subAt T0 p h1.1)) (hcov.2 _ _ hk hm) hh)
+        (hnv p k v h1.1 hk hm hpre)
   | val k =>
     obtain ⟨v, hk, hm⟩ := h1
     cases pos2 with
     | node q =>
       simp only [rowOf, hk, Option.getD_some] at heq
       obtain ⟨hpre, hh⟩ := rowKey_split hH.len heq
-      exact absurd (hH.inj _ _ hh).symm (hnv q k v h2.1 hk hm hpre.symm)
+      exact absurd (hH.inj _ _ (hcov.2 _ _ hk hm) (hcov.1 _ (nodeOf_subAt T0 q h2.1)) hh).symm
+        (hnv q k v h2.1 hk hm hpre.symm)
     | val k' =>
       obtain ⟨v', hk', hm'⟩ := h2
       simp only [rowOf, hk, hk', Option.getD_some] at heq
